@@ -1,9 +1,26 @@
 (* C10 — model of DiscriminativeModel._batchify, the categorical override, the mlcl decoration of
-   _batchify and the sequential blocks of sparse._base_sparse.compute_val_score.
-   Source: gemclus/_base_gemini.py::_batchify, nonparametric/_categorical_models.py::_batchify,
-   mlcl.py::decorate_batch, sparse/_base_sparse.py::compute_val_score.  No proofs in this file. *)
-From Coq Require Import List Arith.
+   _batchify, the sequential blocks / weighting of sparse._base_sparse.compute_val_score and the loop
+   structure of DiscriminativeModel.fit and of the training loop of sparse._base_sparse._run_path.
+   Source: gemclus/_base_gemini.py::_batchify/fit, nonparametric/_categorical_models.py::_batchify,
+   mlcl.py::decorate_batch, sparse/_base_sparse.py::compute_val_score/_run_path.
+
+   Two layers.
+   (1) REFERENCE model (specification level): a consuming-list chunking [batches]; the theorems of
+       Proofs/Batch.v are proved about it and the driver commands c10.batches/epoch/... run it.
+   (2) CODE model: follows the index arithmetic of the source (start index j, slice [lo, hi) with Python's
+       clipping, the step, the loop guard, the None default, which index array selects rows / affinity rows /
+       affinity columns, which arrays a training step reads, the weighting of the validation score).  Every
+       such scalar decision is a field of a rules record whose value Gen/BatchRules.v is REGENERATED from the
+       Python AST by translator/tr_batch.py.  Proofs/BatchGen.v proves that under the regenerated rules the
+       code model returns exactly the reference model's batches.
+   Loops of the code model take fuel and return None when it runs out (the theorems exclude it).
+   No proofs in this file. *)
+From Coq Require Import List Arith ZArith Bool.
 Import ListNotations.
+
+(* ====================================================================================== *)
+(* (1) reference model                                                                     *)
+(* ====================================================================================== *)
 
 (* while j < len(X): idx = all_indices[j:j+bs]; ...; j += bs   (bs >= 1 by parameter validation) *)
 Fixpoint chunks_fuel (fuel bs : nat) (l : list nat) : list (list nat) :=
@@ -40,4 +57,199 @@ Definition val_blocks (n bs : nat) : list (list nat) := batches bs (seq 0 n).
 (* fit: for i in range(max_iter): for batch in _batchify(...): one optimiser step *)
 Definition fit_steps (max_iter n : nat) (bs : option nat) (perms : nat -> list nat) : nat :=
   list_sum (map (fun e => length (epoch n bs (perms e))) (seq 0 max_iter)).
-(* EXTRACT: batches epoch decorated_epoch val_blocks cat_epoch eff_bs *)
+
+(* ====================================================================================== *)
+(* (2) code model                                                                          *)
+(* ====================================================================================== *)
+
+(* ---- Python / numpy primitives the rules are written with ---- *)
+(* l[lo:hi] for Python ints lo, hi (step 1): a negative bound counts from the end, then both are clipped
+   to [0, len]; an empty or reversed range gives [] *)
+Definition py_clip (len i : Z) : Z := if (i <? 0)%Z then Z.max 0 (i + len) else Z.min i len.
+Definition py_slice {A} (lo hi : Z) (l : list A) : list A :=
+  let len := Z.of_nat (length l) in
+  let a := py_clip len lo in
+  let b := py_clip len hi in
+  firstn (Z.to_nat (b - a)) (skipn (Z.to_nat a) l).
+(* np.sort of an index array (insertion sort: only the result matters) *)
+Fixpoint insert_sorted (x : nat) (l : list nat) : list nat :=
+  match l with [] => [x] | y :: r => if x <=? y then x :: l else y :: insert_sorted x r end.
+Definition isort (l : list nat) : list nat := fold_right insert_sorted [] l.
+(* M[rows][:, cols] *)
+Definition block2 {T} (A : nat -> nat -> T) (ri ci : list nat) : nat -> nat -> T :=
+  fun a b => A (nth a ri 0) (nth b ci 0).
+
+(* while <guard j n>: yield j; j = <step j bs>    -> the successive values of j *)
+Fixpoint j_loop (guard : Z -> Z -> bool) (step : Z -> Z -> Z) (fuel : nat) (n bs j : Z) : option (list Z) :=
+  match fuel with
+  | O => None
+  | S f => if guard j n then option_map (cons j) (j_loop guard step f n bs (step j bs)) else Some []
+  end.
+
+(* ---- DiscriminativeModel._batchify ---- *)
+Record BatchRules := {
+  (* all_indices = random_state.permutation(<e>)                          argument: len(X) *)
+  r_perm_len : Z -> Z;
+  (* batch_size = len(X) if self.batch_size is None else self.batch_size   arguments: len(X), self.batch_size *)
+  r_bs : Z -> option Z -> Z;
+  (* j = <e> *)
+  r_start : Z;
+  (* while <test>:                                                         arguments: j, len(X) *)
+  r_guard : Z -> Z -> bool;
+  (* batch_indices = all_indices[<lo>:<hi>]                                arguments: j, batch_size *)
+  r_lo : Z -> Z -> Z;
+  r_hi : Z -> Z -> Z;
+  (* X_batch = X[<idx>]                                                    argument: batch_indices *)
+  r_rows : list nat -> list nat;
+  (* affinity_batch = affinity_matrix[<idx>][:, <idx>]                     argument: batch_indices *)
+  r_aff_rows : list nat -> list nat;
+  r_aff_cols : list nat -> list nat;
+  (* j = <e>  at the end of the loop body                                  arguments: j, batch_size *)
+  r_step : Z -> Z -> Z
+}.
+
+(* what one `yield X_batch, affinity_batch` delivers, as index lists into the full data:
+   (rows of X, (rows of the affinity, columns of the affinity)).  With affinity_matrix = None the second
+   component is None in the code (a literal branch of the skeleton); the index lists then describe nothing. *)
+Definition Yield := (list nat * (list nat * list nat))%type.
+
+(* ---- mlcl.decorate_batch: the holes ---- *)
+Record DecoRules := {
+  (* indices = np.arange(<e>)                                              argument: len(X) *)
+  d_arange : Z -> Z;
+  (* disguise_batch.indices = <idx>.tolist()                               argument: subset *)
+  d_recorded : list nat -> list nat;
+  (* yield X[<idx>], affinity_batch                                        argument: subset *)
+  d_rows : list nat -> list nat
+}.
+
+(* ---- the training loop of fit / _run_path: the holes ---- *)
+(* which array a call reads: the batch's (X_batch / affinity_batch) or the full one (X / affinity) *)
+Inductive Src := SrcBatch | SrcAll.
+Record StepRules := {
+  (* y_pred = self._infer(<X_batch>) *)
+  s_infer_x : Src;
+  (* _, grads = gemini(y_pred, <affinity_batch>, return_grad=True) *)
+  s_gemini_aff : Src;
+  (* grads = self._compute_grads(<X_batch>, y_pred, grads) *)
+  s_grads_x : Src
+}.
+Record FitRules := {
+  (* for i in range(<e>):                                                  argument: self.max_iter *)
+  f_epochs : Z -> Z;
+  (* self.n_iter_ = <e>                                                    argument: self.max_iter *)
+  f_n_iter : Z -> Z;
+  f_step : StepRules
+}.
+
+Section Code.
+Context (B : BatchRules).
+
+(* the batches of index arrays `batch_indices`, in loop order.  P is numpy's permutation oracle:
+   P m = random_state.permutation(m) *)
+Definition code_index_batches (n : nat) (bs : option nat) (P : Z -> list nat) : option (list (list nat)) :=
+  let nz := Z.of_nat n in
+  let all_indices := P (r_perm_len B nz) in
+  let batch_size := r_bs B nz (option_map Z.of_nat bs) in
+  option_map (map (fun j => py_slice (r_lo B j batch_size) (r_hi B j batch_size) all_indices))
+             (j_loop (r_guard B) (r_step B) (S n) nz batch_size (r_start B)).
+
+Definition yield_of (b : list nat) : Yield := (r_rows B b, (r_aff_rows B b, r_aff_cols B b)).
+
+(* one call of _batchify(X, affinity_matrix, random_state) with len(X) = n *)
+Definition code_batchify (n : nat) (bs : option nat) (P : Z -> list nat) : option (list Yield) :=
+  option_map (map yield_of) (code_index_batches n bs P).
+
+(* ---- mlcl.decorate_batch ---- *)
+Context (D : DecoRules).
+(* func(indices, affinity_matrix, random_state): the undecorated _batchify receives `indices` as its X, so
+   its len(X) is len(indices) and its X_batch is indices[...] (nth's default 0 stands for numpy's IndexError;
+   under the regenerated rules every index is in range).  Result per batch:
+   (recorded true indices, (rows of X yielded, affinity block rows/columns)) *)
+Definition code_decorated (n : nat) (bs : option nat) (P : Z -> list nat)
+  : option (list (list nat * (list nat * (list nat * list nat)))) :=
+  let indices := seq 0 (Z.to_nat (d_arange D (Z.of_nat n))) in
+  option_map (map (fun y : Yield =>
+                     let subset := map (fun i => nth i indices 0) (fst y) in
+                     (d_recorded D subset, (d_rows D subset, snd y))))
+             (code_batchify (length indices) bs P).
+
+(* ---- the training loop of fit / _run_path ---- *)
+(* (rows _infer sees, ((rows, columns) of the affinity the GEMINI sees, rows _compute_grads sees)) *)
+Definition Reads := (list nat * ((list nat * list nat) * list nat))%type.
+Definition src_rows (s : Src) (n : nat) (y : Yield) : list nat :=
+  match s with SrcBatch => fst y | SrcAll => seq 0 n end.
+Definition src_aff (s : Src) (n : nat) (y : Yield) : list nat * list nat :=
+  match s with SrcBatch => snd y | SrcAll => (seq 0 n, seq 0 n) end.
+Definition step_reads (S : StepRules) (n : nat) (y : Yield) : Reads :=
+  (src_rows (s_infer_x S) n y, (src_aff (s_gemini_aff S) n y, src_rows (s_grads_x S) n y)).
+
+Fixpoint code_epochs (E : nat -> option (list Yield)) (epochs : list nat) : option (list Yield) :=
+  match epochs with
+  | [] => Some []
+  | e :: r => match E e, code_epochs E r with Some y, Some z => Some (y ++ z) | _, _ => None end
+  end.
+(* range(k) for a Python int k: empty when k <= 0 *)
+Definition py_range (k : Z) : list nat := seq 0 (Z.to_nat k).
+
+(* fit: the sequence of optimiser steps, each with what it reads.  P e = the permutation oracle of epoch e *)
+Definition code_fit_trace (F : FitRules) (max_iter n : nat) (bs : option nat) (P : nat -> Z -> list nat)
+  : option (list Reads) :=
+  option_map (map (step_reads (f_step F) n))
+             (code_epochs (fun e => code_batchify n bs (P e)) (py_range (f_epochs F (Z.of_nat max_iter)))).
+Definition code_n_iter (F : FitRules) (max_iter : Z) : Z := f_n_iter F max_iter.
+(* one epoch of the inner training loop of _run_path *)
+Definition code_path_epoch (S : StepRules) (n : nat) (bs : option nat) (P : Z -> list nat) : option (list Reads) :=
+  option_map (map (step_reads S n)) (code_batchify n bs P).
+End Code.
+
+(* ---- sparse._base_sparse.compute_val_score ---- *)
+Section Val.
+Context {T : Type}.
+Record ValRules := {
+  (* validation_gemini = <e> *)
+  v_init : T;
+  (* j = <e> ; while <test>: ... ; j = <e>                  arguments as in BatchRules *)
+  v_start : Z;
+  v_guard : Z -> Z -> bool;
+  v_step : Z -> Z -> Z;
+  (* X_batch = X[<lo>:<hi>]                                 arguments: j, batch_size *)
+  v_x_lo : Z -> Z -> Z;  v_x_hi : Z -> Z -> Z;
+  (* affinity = y[<lo>:<hi>][:, <lo>:<hi>]                  arguments: j, batch_size *)
+  v_yr_lo : Z -> Z -> Z; v_yr_hi : Z -> Z -> Z;
+  v_yc_lo : Z -> Z -> Z; v_yc_hi : Z -> Z -> Z;
+  (* validation_gemini = validation_gemini + gemini_objective(y_pred, affinity) * len(X_batch)
+     arguments: validation_gemini, the score of the block, len(X_batch), len(X) *)
+  v_acc : T -> T -> nat -> nat -> T;
+  (* validation_gemini = validation_gemini / len(X)         arguments: validation_gemini, len(X) *)
+  v_norm : T -> nat -> T;
+  (* _run_path: batch_size = clf.batch_size if it is not None else len(X)   arguments: len(X), clf.batch_size *)
+  v_path_bs : Z -> option Z -> Z
+}.
+Context (V : ValRules).
+
+(* the blocks of one validation pass: (rows of X_batch, (rows, columns) of y) *)
+Definition code_val_blocks (n : nat) (bs : Z) : option (list Yield) :=
+  let all := seq 0 n in
+  option_map (map (fun j => (py_slice (v_x_lo V j bs) (v_x_hi V j bs) all,
+                             (py_slice (v_yr_lo V j bs) (v_yr_hi V j bs) all,
+                              py_slice (v_yc_lo V j bs) (v_yc_hi V j bs) all))))
+             (j_loop (v_guard V) (v_step V) (S n) (Z.of_nat n) bs (v_start V)).
+
+(* g rows yrows ycols = gemini_objective(clf.predict_proba(X[rows]), affinity of the block): an oracle.
+   (with y = None the affinity is computed from X_batch alone: g then ignores its last two arguments).
+   len(X) = 0 makes the code raise ZeroDivisionError; the model's x/0 is whatever the number system says: the theorems
+   require 1 <= n. *)
+Definition code_val_score (n : nat) (bs : Z) (g : list nat -> list nat -> list nat -> T) : option T :=
+  match code_val_blocks n bs with
+  | None => None
+  | Some blocks =>
+      Some (v_norm V (fold_left (fun acc (y : Yield) =>
+                                   v_acc V acc (g (fst y) (fst (snd y)) (snd (snd y))) (length (fst y)) n)
+                                blocks (v_init V)) n)
+  end.
+(* the validation score as _run_path calls it: batch_size from clf.batch_size / len(X) *)
+Definition code_path_val_score (n : nat) (bs : option nat) (g : list nat -> list nat -> list nat -> T) : option T :=
+  code_val_score n (v_path_bs V (Z.of_nat n) (option_map Z.of_nat bs)) g.
+End Val.
+(* EXTRACT: batches epoch decorated_epoch val_blocks cat_epoch eff_bs code_index_batches code_batchify code_decorated code_fit_trace code_n_iter code_path_epoch code_val_blocks code_val_score code_path_val_score *)
